@@ -209,6 +209,21 @@ class Check:
         self.executors.append(ex)
         return ex
 
+    def step(self, label, fn, *a, **kw):
+        """run one unit of a spec; VERIF_ONLY=<regex> restricts a debugging run to matching units"""
+        only = os.environ.get("VERIF_ONLY")
+        if only and not re.search(only, label):
+            self.notes.append("unit %s skipped by VERIF_ONLY" % label)
+            self.partial = True
+            return None
+        t = time.time()
+        r = fn(*a, **kw)
+        self.unit_times = getattr(self, "unit_times", {})
+        self.unit_times[label] = round(time.time() - t, 2)
+        if os.environ.get("VERIF_DEBUG"):
+            print("  [%6.1fs] %s (%d paths, %d/%d obligations so far)" % (time.time() - t, label, self.paths, self.discharged, self.obligations), file=sys.stderr)
+        return r
+
     def unit(self, name):
         return self.units.setdefault(name, {"paths": 0, "obligations": 0, "discharged": 0, "witnesses": 0, "panic_outcomes": 0})
 
@@ -249,7 +264,7 @@ class Check:
             ctx.add(pre)
         # vacuity witness: the path (with the precondition) is reachable
         if witness:
-            r = ctx.check()
+            r = ctx.check_light()
             if r == z3.sat:
                 self.witnesses += 1
                 u["witnesses"] += 1
@@ -412,6 +427,8 @@ class Check:
                 lines.append("KNOWN-FINDING: property=%s %s [%s] witness=%s" % (self.pid, f["what"], f["id"], w["inputs"]))
             else:
                 self.notes.append("known finding %s was not observed in this run (tier %s)" % (f["id"], self.tier))
+        if getattr(self, "partial", False):
+            self.inconclusive.append("partial debugging run (VERIF_ONLY set): not a verdict")
         if self.inconclusive and status == 0:
             status = 2
         ev = {
@@ -432,7 +449,7 @@ class Check:
                 "solver": {"engine": "z3 " + z3.get_version_string(), "queries": self.solver_checks, "time_s": round(self.solver_s, 2), "cvc5_recheck": self.cvc5},
                 "mir": {k: {"functions": len(v[0]), "sha256_16": v[1], "lines": v[2]} for k, v in self.ws.mir_cache.items()},
                 "source_sha256_16": self.ws.src_hash,
-                "timing": self.ws.timing,
+                "timing": self.ws.timing, "unit_times_s": getattr(self, "unit_times", {}),
                 "known_findings_observed": {k: v for k, v in self.known_seen.items()},
                 "new_violations": self.violations,
                 "inconclusive": self.inconclusive,
